@@ -9,7 +9,8 @@
 //!   varp  : (graph, config, [(from, to, find_variable_paths result)])  -> check_varp
 //!   trav  : (graph, config, [(start, traverse result)])                -> check_trav
 //!   astar : (graph, dir, [(from, to, astar_path result)])              -> check_astar
-//!   algo  : (graph, scc, wcc, mst, kcore, triangles, biconnected)      -> check_algo
+//!   algo  : (graph, scc, wcc, mst, kcore, triangles, biconnected, kcore default cfg) -> check_algo
+//!   allw  : (graph, [(from, to, find_all_weighted_paths result)])      -> check_allw
 //! The "current graph" of a case is what the engine's own public reads (all_nodes/all_edges)
 //! return after the build script (creations + deletions) ran.
 use graph_engine::{
@@ -346,6 +347,7 @@ struct Kinds {
     trav: CaseWriter,
     astar: CaseWriter,
     algo: CaseWriter,
+    allw: CaseWriter,
 }
 
 fn bfs_case(e: &GraphEngine, s: &Snap, f: &Filt, use_none: bool, ps: &[(u64, u64)], tag: &str, k: &mut Kinds, dist: &mut Dist) {
@@ -577,6 +579,89 @@ fn astar_case(e: &GraphEngine, s: &Snap, dir: u64, ps: &[(u64, u64)], tag: &str,
     k.astar.push(&term, &human, longest >= 2);
 }
 
+/// find_all_weighted_paths(prop w): every returned path with its own total, and the reported total
+/// Returns false when a query did not answer within 5 s (recorded as XErr, i.e. an oracle failure with
+/// this concrete input); the caller then stops issuing further queries of this kind because the stuck
+/// thread cannot be killed and keeps allocating.
+fn allw_case(e: &std::sync::Arc<GraphEngine>, s: &Snap, ps: &[(u64, u64)], tag: &str, k: &mut Kinds, dist: &mut Dist) -> bool {
+    let mut items = vec![];
+    let mut multi = false;
+    let mut alive = true;
+    for (a, bb) in ps {
+        let (tx, rx) = std::sync::mpsc::channel();
+        let (e2, a2, b2) = (e.clone(), *a, *bb);
+        std::thread::spawn(move || {
+            let r = guarded(std::panic::AssertUnwindSafe(|| e2.find_all_weighted_paths(a2, b2, "w", Some(AllPathsConfig { max_paths: 1000, max_parents_per_node: 100 }))));
+            let _ = tx.send(r);
+        });
+        let res = match rx.recv_timeout(std::time::Duration::from_secs(5)) {
+            Ok(r) => r,
+            Err(_) => {
+                dist.hit("allw.no_answer_within_5s");
+                items.push(format!("({a}, {bb}, XErr)"));
+                alive = false;
+                break;
+            }
+        };
+        let t = match res {
+            Ok(Ok(p)) => {
+                if p.paths.len() > 300 {
+                    dist.hit("allw.skipped_large");
+                    continue;
+                }
+                multi |= p.paths.len() >= 2;
+                dist.hit("allw.found");
+                let per: Option<Vec<String>> = p.paths.iter().map(|x| fint(x.total_weight).map(|tw| format!("({}, {}, {})", nl(&x.nodes), nl(&x.edges), tw))).collect();
+                match (per, fint(p.total_weight)) {
+                    (Some(per), Some(tw)) => format!("XOk {} {}", tw, list(per)),
+                    _ => "XErr".into(),
+                }
+            }
+            Ok(Err(GraphError::PathNotFound)) => {
+                dist.hit("allw.not_found");
+                "XNotFound".into()
+            }
+            Ok(Err(GraphError::NodeNotFound(x))) => format!("XNoNode {x}"),
+            _ => "XErr".into(),
+        };
+        items.push(format!("({a}, {bb}, {t})"));
+    }
+    let term = format!("({}, {})", s.coq(), list(items));
+    let human = format!("{tag} find_all_weighted_paths(prop w) pairs={}{} graph: {}", ps.len(), if alive { "" } else { " (LAST PAIR DID NOT ANSWER WITHIN 5 s)" }, s.human());
+    k.allw.push(&term, &human, multi);
+    alive
+}
+
+/// small weighted graphs for find_all_weighted_paths: heavy direct edges next to light detours (a
+/// node is first reached expensively and later cheaply), equal-weight alternatives, parallel edges
+fn gen_weighted_small(r: &mut Rng) -> Vec<BOp> {
+    let nn = r.range(3, 7);
+    let mut ops: Vec<BOp> = (0..nn).map(|_| BOp::Node(Some(0))).collect();
+    let dirmode = r.below(3);
+    let positive = r.chance(1, 2);
+    let m = r.range(nn, 2 * nn + 2);
+    for _ in 0..m {
+        let f = r.range(1, nn);
+        let t = r.range(1, nn);
+        let d = match dirmode { 0 => true, 1 => false, _ => r.chance(1, 2) };
+        let w = match r.below(4) {
+            0 => r.range(5, 12),                       // heavy
+            1 => if positive { 1 } else { r.below(2) }, // light (maybe zero)
+            2 => 2,
+            _ => r.range(1, 3),
+        };
+        ops.push(BOp::Edge(f, t, d, 0, Some(w), None));
+    }
+    // a light chain 1 -> 2 -> .. -> nn and a heavy shortcut 1 -> nn
+    for i in 1..nn {
+        if r.chance(2, 3) {
+            ops.push(BOp::Edge(i, i + 1, dirmode != 1, 0, Some(1), None));
+        }
+    }
+    ops.push(BOp::Edge(1, nn, dirmode != 1, 0, Some(r.range(2, 12)), None));
+    ops
+}
+
 fn pairs_coq(v: &[(u64, u64)]) -> String {
     list(v.iter().map(|(a, bb)| format!("({a}, {bb})")))
 }
@@ -621,33 +706,38 @@ fn algo_case(e: &GraphEngine, s: &Snap, tag: &str, k: &mut Kinds, dist: &mut Dis
         _ => "None".into(),
     };
     // k-core decomposition: core numbers, degeneracy (both entry points), the `cores` grouping, and
-    // kcore_subgraph(k) (= get_kcore) for every k from 0 to the number of nodes
-    let kcfg = KCoreConfig::new().undirected();
-    let kc = guarded(std::panic::AssertUnwindSafe(|| e.kcore_decomposition(&kcfg)));
-    let kc_t = match kc {
-        Ok(Ok(r)) => {
-            let mut v: Vec<(u64, u64)> = r.core_numbers.iter().map(|(a, c)| (*a, *c as u64)).collect();
-            v.sort();
-            let mut grouped_ok = r.cores.values().map(|m| m.len()).sum::<usize>() == r.core_numbers.len();
-            for (c, members) in &r.cores {
-                grouped_ok &= members.iter().all(|m| r.core_numbers.get(m) == Some(c));
+    // kcore_subgraph(k) (= get_kcore) for every k from 0 to the number of nodes; once with
+    // .undirected() and once with the DEFAULT config (k-core is defined on the undirected graph
+    // either way: "K-core always uses undirected degree")
+    let kcore_term = |kcfg: &KCoreConfig, dist: &mut Dist| -> String {
+        let kc = guarded(std::panic::AssertUnwindSafe(|| e.kcore_decomposition(kcfg)));
+        match kc {
+            Ok(Ok(r)) => {
+                let mut v: Vec<(u64, u64)> = r.core_numbers.iter().map(|(a, c)| (*a, *c as u64)).collect();
+                v.sort();
+                let mut grouped_ok = r.cores.values().map(|m| m.len()).sum::<usize>() == r.core_numbers.len();
+                for (c, members) in &r.cores {
+                    grouped_ok &= members.iter().all(|m| r.core_numbers.get(m) == Some(c));
+                }
+                let deg2 = e.degeneracy(kcfg).map(|d| d as u64).unwrap_or(u64::MAX);
+                let mut per_k = vec![];
+                for kk in 0..=(s.nodes.len() as u64) {
+                    let mut sub = e.kcore_subgraph(kk as usize, kcfg).unwrap_or_else(|_| vec![u64::MAX]);
+                    sub.sort();
+                    let mut shell = r.shell(kk as usize);
+                    shell.sort();
+                    per_k.push(format!("({}, {}, {})", kk, nl(&sub), nl(&shell)));
+                }
+                if r.degeneracy >= 2 {
+                    dist.hit("algo.graph_with_degeneracy_ge_2");
+                }
+                format!("(Some ({}, {}, {}, {}, {}))", pairs_coq(&v), r.degeneracy, deg2, b(grouped_ok), list(per_k))
             }
-            let deg2 = e.degeneracy(&kcfg).map(|d| d as u64).unwrap_or(u64::MAX);
-            let mut per_k = vec![];
-            for kk in 0..=(s.nodes.len() as u64) {
-                let mut sub = e.kcore_subgraph(kk as usize, &kcfg).unwrap_or_else(|_| vec![u64::MAX]);
-                sub.sort();
-                let mut shell = r.shell(kk as usize);
-                shell.sort();
-                per_k.push(format!("({}, {}, {})", kk, nl(&sub), nl(&shell)));
-            }
-            if r.degeneracy >= 2 {
-                dist.hit("algo.graph_with_degeneracy_ge_2");
-            }
-            format!("(Some ({}, {}, {}, {}, {}))", pairs_coq(&v), r.degeneracy, deg2, b(grouped_ok), list(per_k))
+            _ => "None".into(),
         }
-        _ => "None".into(),
     };
+    let kc_t = kcore_term(&KCoreConfig::new().undirected(), dist);
+    let kcd_t = kcore_term(&KCoreConfig::new(), dist);
     // triangles (undirected reading)
     let tr = guarded(std::panic::AssertUnwindSafe(|| e.count_triangles(&TriangleConfig::new().undirected())));
     let tr_t = match tr {
@@ -678,7 +768,7 @@ fn algo_case(e: &GraphEngine, s: &Snap, tag: &str, k: &mut Kinds, dist: &mut Dis
         }
         _ => "None".into(),
     };
-    let term = format!("({}, {}, {}, {}, {}, {}, {})", s.coq(), scc_t, wcc_t, mst_t, kc_t, tr_t, bc_t);
+    let term = format!("({}, {}, {}, {}, {}, {}, {}, {})", s.coq(), scc_t, wcc_t, mst_t, kc_t, tr_t, bc_t, kcd_t);
     let human = format!("{tag} algorithms(scc,wcc,mst,kcore,triangles,biconnected) graph: {}", s.human());
     k.algo.push(&term, &human, s.edges.len() >= 3);
 }
@@ -808,6 +898,9 @@ fn gen_structured(r: &mut Rng, dist: &mut Dist) -> Vec<BOp> {
         edges.push((bb, a));
     }
     r.shuffle(&mut edges);
+    if r.chance(1, 3) {
+        n += r.range(1, 2); // isolated nodes
+    }
     let dirmode = r.below(3);
     let mut ops: Vec<BOp> = (0..n).map(|_| BOp::Node(Some(0))).collect();
     for (a, bb) in edges {
@@ -883,6 +976,7 @@ fn main() {
         trav: CaseWriter::new(&args.out, "trav"),
         astar: CaseWriter::new(&args.out, "astar"),
         algo: CaseWriter::new(&args.out, "algo"),
+        allw: CaseWriter::new(&args.out, "allw"),
     };
 
     // --- corpus first -------------------------------------------------------------------------
@@ -928,14 +1022,42 @@ fn main() {
         }
     }
     let _ = und;
-    let nstructured = args.budget(260, 6000);
+    let nstructured = args.budget(150, 6000);
     for i in 0..nstructured {
         let ops = gen_structured(&mut rng, &mut dist);
         run_algo_only(&ops, &format!("structured#{i}"), &mut k, &mut dist);
     }
 
+    // --- all minimum-weight paths --------------------------------------------------------------
+    {
+        // corpus: a->c (10), a->b (1), b->c (1): c is first reached at cost 10, later at cost 2
+        let mut corp: Vec<Vec<BOp>> = vec![
+            vec![BOp::Node(Some(0)), BOp::Node(Some(0)), BOp::Node(Some(0)),
+                 BOp::Edge(1, 3, true, 0, Some(10), None), BOp::Edge(1, 2, true, 0, Some(1), None), BOp::Edge(2, 3, true, 0, Some(1), None)],
+            // the same undirected, plus an equal-weight alternative and a parallel edge
+            vec![BOp::Node(Some(0)), BOp::Node(Some(0)), BOp::Node(Some(0)), BOp::Node(Some(0)),
+                 BOp::Edge(1, 3, false, 0, Some(10), None), BOp::Edge(1, 2, false, 0, Some(1), None), BOp::Edge(2, 3, false, 0, Some(1), None),
+                 BOp::Edge(1, 4, true, 0, Some(1), None), BOp::Edge(4, 3, true, 0, Some(1), None), BOp::Edge(2, 3, true, 0, Some(1), None)],
+        ];
+        for _ in 0..args.budget(50, 2000) {
+            corp.push(gen_weighted_small(&mut rng));
+        }
+        // corpus: the zero-weight edge walked both ways (hung before fix 23f86df7)
+        corp.insert(0, vec![BOp::Node(Some(0)), BOp::Node(Some(0)), BOp::Node(Some(0)),
+            BOp::Edge(1, 2, true, 0, Some(1), None), BOp::Edge(2, 3, false, 0, Some(0), None)]);
+        for (i, ops) in corp.iter().enumerate() {
+            let e = std::sync::Arc::new(build(ops));
+            let s = snapshot(&e);
+            let ids: Vec<u64> = s.nodes.iter().map(|x| x.0).collect();
+            let ps = pairs(&mut rng, &ids, 7, 0, 99);
+            if !allw_case(&e, &s, &ps, &format!("weighted#{i} script={:?};", ops), &mut k, &mut dist) {
+                break;
+            }
+        }
+    }
+
     // --- seeded random multigraphs ------------------------------------------------------------
-    let ngraphs = args.budget(75, 1500);
+    let ngraphs = args.budget(60, 1500);
     for i in 0..ngraphs {
         let ops = gen_script(&mut rng, &mut dist, 24);
         run_graph(&mut rng, &ops, &format!("graph#{i}"), &mut k, &mut dist, !args.thorough());
@@ -945,7 +1067,7 @@ fn main() {
         &args.out,
         json!({
             "property": "C18", "seed": args.seed, "tier": args.tier,
-            "kinds": [k.bfs.summary(), k.wpath.summary(), k.allp.summary(), k.varp.summary(), k.trav.summary(), k.astar.summary(), k.algo.summary()],
+            "kinds": [k.bfs.summary(), k.wpath.summary(), k.allp.summary(), k.varp.summary(), k.trav.summary(), k.astar.summary(), k.algo.summary(), k.allw.summary()],
             "distribution": dist.json(),
             "nontrivial_rule": "bfs/wpath/astar: some returned path has >= 2 hops; allp: some pair has >= 2 shortest paths; varp: some returned path has >= 2 hops; trav: some traversal returns >= 3 nodes; algo: graph has >= 3 edges",
         }),
